@@ -20,6 +20,10 @@ package browse
 //@   pure
 //@ extern (*net/url.URL).String
 //@   pure
+//@ define knownArchive(t ArchiveType) bool = t == "zip" || t == "tar" || t == "tar.gz" || t == "tar.xz" || t == "tar.br" || t == "tar.bz2" || t == "tar.lz4" || t == "tar.sz" || t == "tar.zst"
+//@ // ServeListing's own precondition "the configured archive types are known" (unit listing_sweep) is NOT demanded here: bc
+//@ // is the address of an element of b.Configs, and a pointer into a slice of structs is opaque in this model, so the
+//@ // representation invariant below cannot be carried to it (listed limit)
 //@ func (Browse).ServeListing
 //@ extern invoke:(net/http.FileSystem).Open
 //@   ensures result1 == nil ==> result0 != nil
@@ -29,6 +33,8 @@ package browse
 //@ func (Browse).ServeHTTP
 //@   requires r != nil && r.URL != nil && len(r.URL.Path) >= 1 && r.URL.Path[0] == '/'
 //@   requires forall(k, 0, len(b.Configs), b.Configs[k].Fs.Root != nil)
+//@   // representation invariant of the configurations the `browse` setup builds (it admits only archive types it finds in ArchiveTypeToMime)
+//@   requires forall(k, 0, len(b.Configs), forall(j, 0, len(b.Configs[k].ArchiveTypes), knownArchive(b.Configs[k].ArchiveTypes[j])))
 //@   at call net/http.Redirect assert [redirect_starts_with_slash] len(u.Path) >= 1 && u.Path[0] == '/'
 //@   at call net/http.Redirect assert [redirect_same_origin] len(u.Path) >= 2 ==> u.Path[1] != '/'
 //@   loop 1 invariant 0 <= #i && #i <= len(b.Configs) && bc == nil
@@ -78,6 +84,48 @@ package browse
 //@ unit archive_serve props=C02 filter=`browse\.Browse\)\.ServeArchive$`
 //@ // C02 "archive walker over the jailed filesystem": the tree that is archived is walked THROUGH the site's http.FileSystem
 //@ // (the root jail), starting at the requested directory - never through the operating system's file API on a joined path
+//@ define knownArchive(t ArchiveType) bool = t == "zip" || t == "tar" || t == "tar.gz" || t == "tar.xz" || t == "tar.br" || t == "tar.bz2" || t == "tar.lz4" || t == "tar.sz" || t == "tar.zst"
+//@ func (ArchiveType).GetWriter
+//@   requires [only_archive_types_the_writer_table_knows] knownArchive(a)
+//@   ensures result != nil
 //@ func (Browse).ServeArchive
 //@   requires w != nil && r != nil && bc != nil
+//@   requires [only_a_known_archive_type_is_served] knownArchive(archiveType)
 //@   at call github.com/rakyll/statik/fs.Walk before [walks_the_jailed_filesystem_from_the_requested_directory] arg0 == bc.Fs.Root && arg1 == dirPath
+
+//@ unit listing_sweep props=C19,C02 files=browse.go nilchecks=on nonnil_params=on exclude=`browse\.(directoryListing)$|browse\.Browse\)\.(ServeHTTP|ServeArchive|ServeArchive\$[0-9]+)$` filter=`.`
+//@ // the rest of the listing code works on request data (sort, order, limit and archive query parameters, cookies, Accept
+//@ // header) and on directory entries: safety sweep - index, slice, nil dereference, division, explicit panic - with the few
+//@ // preconditions the code relies on made explicit and checked at the call sites inside the unit
+//@ use @verif/specs/stdlib.spec:stdlib
+//@ use @verif/specs/stdlib.spec:nethttp_api
+//@ // the archive formats the writer table knows; the `browse` setup only lets these into a configuration (it checks
+//@ // ArchiveTypeToMime, whose keys are exactly these nine), and only a configured type is ever served
+//@ define knownArchive(t ArchiveType) bool = t == "zip" || t == "tar" || t == "tar.gz" || t == "tar.xz" || t == "tar.br" || t == "tar.bz2" || t == "tar.lz4" || t == "tar.sz" || t == "tar.zst"
+//@ func (ArchiveType).GetWriter
+//@   requires [only_archive_types_the_writer_table_knows] knownArchive(a)
+//@ func (Browse).ServeArchive
+//@   requires [only_a_known_archive_type_is_served] knownArchive(archiveType)
+//@ func (Browse).ServeListing
+//@   requires w != nil && r != nil && r.URL != nil && bc != nil && requestedFilepath != nil
+//@   requires [configured_archive_types_are_known] forall(k, 0, len(bc.ArchiveTypes), knownArchive(bc.ArchiveTypes[k]))
+//@ func (Browse).loadDirectoryContents
+//@   requires requestedFilepath != nil && config != nil
+//@   ensures result2 == nil ==> result0 != nil
+//@ // sort.Sort calls these with 0 <= i, j < Len() (its documented contract): stated as preconditions
+//@ func (byName).Swap
+//@   requires 0 <= i && i < len(l.Items) && 0 <= j && j < len(l.Items)
+//@ func (byName).Less
+//@   requires 0 <= i && i < len(l.Items) && 0 <= j && j < len(l.Items)
+//@ func (byNameDirFirst).Swap
+//@   requires 0 <= i && i < len(l.Items) && 0 <= j && j < len(l.Items)
+//@ func (byNameDirFirst).Less
+//@   requires 0 <= i && i < len(l.Items) && 0 <= j && j < len(l.Items)
+//@ func (bySize).Swap
+//@   requires 0 <= i && i < len(l.Items) && 0 <= j && j < len(l.Items)
+//@ func (bySize).Less
+//@   requires 0 <= i && i < len(l.Items) && 0 <= j && j < len(l.Items)
+//@ func (byTime).Swap
+//@   requires 0 <= i && i < len(l.Items) && 0 <= j && j < len(l.Items)
+//@ func (byTime).Less
+//@   requires 0 <= i && i < len(l.Items) && 0 <= j && j < len(l.Items)
